@@ -1894,7 +1894,7 @@ reading:
 			args = append(args, string(line))
 			break
 		}
-		if line[0] == '"' && line[len(line)-1] == '"' {
+		if len(line) > 1 && line[0] == '"' && line[len(line)-1] == '"' {
 			if len(args) > 0 &&
 				strings.ToLower(args[0]) == "set" &&
 				strings.ToLower(args[len(args)-1]) == "string" {
